@@ -280,7 +280,25 @@ func workloadTight(seed int64, iters int) [][]byte {
 	copy(kint[:], ev.Bytes(r, 16))
 	msg := ev.Bytes(r, 33+int(seed%7))
 	var outs [][]byte
+	// a UE context of its own for the downlink direction (tglib.NASDecode): algorithms and keys differ per goroutine
+	ue := tglib.NewRanUeContext(fmt.Sprintf("imsi-20893%010d", seed), seed, uint8(1+seed%2), uint8(1+seed%2))
+	ue.KnasEnc, ue.KnasInt = kenc, kint
+	dlPlain := []byte{0x7e, 0x00, 0x54, 0xd1}
 	for i := 0; i < iters; i++ {
+		if i%4 == 0 {
+			c := uint32(i/4 + 1)
+			body := append([]byte{}, dlPlain...)
+			security.NASEncrypt(ue.CipheringAlg, kenc, c, 1, 1, body)
+			withSqn := append([]byte{byte(c)}, body...)
+			mac, _ := security.NASMacCalculate(ue.IntegrityAlg, kint, c, 1, 1, withSqn)
+			pdu := append(append([]byte{0x7e, 0x02}, mac...), withSqn...)
+			if m, err := tglib.NASDecode(ue, 2, pdu); err == nil && m != nil {
+				e, _ := m.PlainNasEncode()
+				outs = append(outs, e, []byte{byte(ue.DLCount.Get() >> 16), byte(ue.DLCount.Get() >> 8), byte(ue.DLCount.Get())})
+			} else {
+				outs = append(outs, []byte("decode error"))
+			}
+		}
 		for _, alg := range []uint8{2, 1} {
 			c := append([]byte{}, msg...)
 			security.NASEncrypt(alg, kenc, uint32(i), 1, uint8(i%2), c)
